@@ -237,6 +237,63 @@ func checkC35(c *Ctx) (string, []string) {
 		c.requireCall("C35.sets", X+"UpdatePsiGBW", gbw, "SetPsi"+n, []string{"POST ‖ " + X + "UpdatePsi" + n + "(prior.GetPsi(PRIOR), " + cv + ")"})
 	}
 
+	c.Rule("C35.sorted-unique-inputs", "verdict targets, culprit keys and fault keys of a block must be strictly ascending: each controller's CheckSortUnique runs both a duplicate detection keyed by that field (a repeated key is an error) and an adjacent-pair order test (descending neighbours are an error), and returns either error", 9)
+	for _, k := range []struct{ ctl, list, field, cmp string }{
+		{"VerdictController", "Verdicts", "Verdict.Target", X + "CompareWorkReportHash(p0.Verdicts[*].Verdict.Target, p0.Verdicts[*].Verdict.Target)"},
+		{"CulpritController", "Culprits", "Key", "bytes.Compare(&p0.Culprits[*].Key[:], &p0.Culprits[*].Key[:])"},
+		{"FaultController", "Faults", "Key", "bytes.Compare(&p0.Faults[*].Key[:], &p0.Faults[*].Key[:])"},
+	} {
+		cu, cs2, csu := get(k.ctl+".CheckUnique"), get(k.ctl+".CheckSorted"), get(k.ctl+".CheckSortUnique")
+		if cu == nil || cs2 == nil || csu == nil {
+			continue
+		}
+		K := "(*internal/extrinsic." + k.ctl + ")."
+		// duplicate detection: lookup keyed by the field guards an error return, and the key is recorded
+		member := "makemap[p0." + k.list + "[*]." + k.field + "]"
+		dupE := condEdges(cu, func(v ssa.Value) (bool, bool) { return exprStr(v, shapeOpts) == member, true })
+		okDup := len(dupE) == 1
+		if okDup {
+			_, reachOK := findPath(pathQuery{startEdges: dupE, target: func(in ssa.Instruction) bool {
+				r, isR := in.(*ssa.Return)
+				return isR && !isErrorReturn(cu, r)
+			}, blocker: func(in ssa.Instruction) bool { _, isR := in.(*ssa.Return); return isR }})
+			okDup = !reachOK
+		}
+		recorded := false
+		allInstrs(cu, func(in ssa.Instruction) {
+			if mu, ok := in.(*ssa.MapUpdate); ok && exprStr(mu.Key, shapeOpts) == "p0."+k.list+"[*]."+k.field {
+				recorded = true
+			}
+		})
+		c.Check(okDup && recorded, "C35.sorted-unique-inputs", K+"CheckUnique · duplicate "+k.field, cu.Pos(), "a repeated "+k.field+" leads only to an error; every key is recorded", "two entries with the same "+k.field+" are not rejected: the same report/key can be judged twice in one block")
+		// order test on adjacent pairs
+		var call *ssa.Call
+		allInstrs(cs2, func(in ssa.Instruction) {
+			if cl, ok := in.(*ssa.Call); ok && calleeFunc(cl) != nil && (calleeFunc(cl).String() == "bytes.Compare" || calleeFunc(cl).Name() == "CompareWorkReportHash") {
+				call = cl
+			}
+		})
+		okOrd := call != nil
+		if okOrd {
+			pc, okA := adjacentArgs(call)
+			if !okA {
+				// arguments are values (not slices of addressed elements): compare index expressions of the loads
+				pc, okA = adjacentValueArgs(call)
+			}
+			descE := condEdges(cs2, func(v ssa.Value) (bool, bool) { return exprStr(v, shapeOpts) == "(0 < "+k.cmp+")", true })
+			okOrd = okA && pc && len(descE) == 1
+			if okOrd {
+				_, reachOK := findPath(pathQuery{startEdges: descE, target: func(in ssa.Instruction) bool {
+					r, isR := in.(*ssa.Return)
+					return isR && !isErrorReturn(cs2, r)
+				}, blocker: func(in ssa.Instruction) bool { _, isR := in.(*ssa.Return); return isR }})
+				okOrd = !reachOK
+			}
+		}
+		c.Check(okOrd, "C35.sorted-unique-inputs", K+"CheckSorted · order of "+k.field, cs2.Pos(), "compare(entry[i−1], entry[i]) > 0 leads only to an error", "descending neighbours are not rejected (or the pair compared is not (i−1, i))")
+		c.checkShapes("C35.sorted-unique-inputs", K+"CheckSortUnique", csu, abbrMap(returnShapes(csu)), map[string][]string{"ret": {K + "CheckSorted(p0)", K + "CheckUnique(p0)", "nil"}})
+	}
+
 	c.Rule("C35.pipeline", "Disputes(): the judgement sets are updated only after verdict signatures, verdict ordering/uniqueness, disjointness from prior judgements, culprit/fault sufficiency and culprit/fault ordering checks have all passed; the offender set only after culprit and fault validity; every failed check returns its error", 9)
 	{
 		var gbwCall, psiOCall ssa.Instruction
@@ -294,4 +351,51 @@ func keysOf(m map[string]bool) []string {
 	}
 	sort.Strings(ks)
 	return ks
+}
+
+
+// adjacentValueArgs: like adjacentArgs for calls whose two arguments are element
+// values loaded from list[i−1] and list[i] (possibly through field selections).
+func adjacentValueArgs(call *ssa.Call) (prevThenCur bool, ok bool) {
+	if len(call.Call.Args) != 2 {
+		return false, false
+	}
+	idxOf := func(v ssa.Value) ssa.Value {
+		for i := 0; i < 10; i++ {
+			switch x := v.(type) {
+			case *ssa.UnOp:
+				v = x.X
+			case *ssa.FieldAddr:
+				v = x.X
+			case *ssa.Field:
+				v = x.X
+			case *ssa.IndexAddr:
+				return x.Index
+			case *ssa.Index:
+				return x.Index
+			default:
+				return nil
+			}
+		}
+		return nil
+	}
+	a, b := idxOf(call.Call.Args[0]), idxOf(call.Call.Args[1])
+	if a == nil || b == nil {
+		return false, false
+	}
+	minus1 := func(x, base ssa.Value) bool {
+		bo, ok := stripConv(x).(*ssa.BinOp)
+		if !ok || bo.Op.String() != "-" || stripConv(bo.X) != stripConv(base) {
+			return false
+		}
+		k, ok := constInt(bo.Y)
+		return ok && k == 1
+	}
+	if minus1(a, b) {
+		return true, true
+	}
+	if minus1(b, a) {
+		return false, true
+	}
+	return false, false
 }
